@@ -24,6 +24,7 @@ type HarnessSpec struct {
 	Opts     map[string]string
 	Stubs    map[string]string // callee -> harness function name
 	Expect   string            // "" pass expected; "known:<tag>" etc. (unused)
+	Noops    []string          // function-name prefixes executed as no-ops returning zero values
 }
 
 var reDirective = regexp.MustCompile(`^//verif:(\w+)\s*(.*)$`)
@@ -43,6 +44,7 @@ func Discover(harnessRoot string) ([]HarnessSpec, error) {
 		rel, _ := filepath.Rel(harnessRoot, filepath.Dir(p))
 		var pending *HarnessSpec
 		fileStubs := map[string]string{}
+		var fileNoops []string
 		for _, line := range strings.Split(string(data), "\n") {
 			line = strings.TrimRight(line, " \t\r")
 			if m := reDirective.FindStringSubmatch(line); m != nil {
@@ -61,6 +63,12 @@ func Discover(harnessRoot string) ([]HarnessSpec, error) {
 								pending.Opts[k] = v
 							}
 						}
+					}
+				case "noop":
+					if pending != nil {
+						pending.Noops = append(pending.Noops, strings.TrimSpace(m[2]))
+					} else {
+						fileNoops = append(fileNoops, strings.TrimSpace(m[2]))
 					}
 				case "stub":
 					parts := strings.SplitN(m[2], "=", 2)
@@ -82,6 +90,7 @@ func Discover(harnessRoot string) ([]HarnessSpec, error) {
 						pending.Stubs[k] = v
 					}
 				}
+				pending.Noops = append(pending.Noops, fileNoops...)
 				out = append(out, *pending)
 				pending = nil
 			}
